@@ -512,11 +512,15 @@ def c15_irefs(ctx, fam, size, use_async, chunk=0):
     import re
     cmd = ["valgrind", "--tool=cachegrind", "--cache-sim=no", "--cachegrind-out-file=/dev/null",
            _bin(ctx, "vcore"), "cost", "--family", fam, "--size", str(size)] + (["--async"] if use_async else []) + (["--chunk", str(chunk)] if chunk else [])
+    if fam == "hash-flood":
+        cmd += ["--names-file", os.path.join(ctx["work"], "C15.flood.names")]
     rc, so, se, secs = ctx["run"](cmd, timeout=1800)
     m = re.search(r"I\s+refs:\s+([\d,]+)", se)
     n = re.search(r"input_bytes=(\d+)", so)
     if rc is None:
         return None, None, "timeout"
+    if "NOT-APPLICABLE" in so:
+        return None, None, "n/a"
     if rc != 0 or not m or not n:
         return None, None, f"rc={rc}: {se[-200:]}"
     return int(m.group(1).replace(",", "")), int(n.group(1)), None
@@ -534,6 +538,8 @@ def c15_series(ctx, job):
             # >100x backstop: a linear parse of <= 1 MiB under cachegrind takes seconds, not half an hour
             inconcl.append(f"watchdog: cachegrind run {key} size {size} exceeded 1800 s")
             break
+        if err == "n/a":
+            break  # hasher keyed per process: prepared names do not collide there
         if err:
             inconcl.append(f"cachegrind run {key} size {size} failed: {err}")
             break
@@ -558,6 +564,13 @@ def c15_cachegrind(ctx):
     max_size = (1 << 20) if ctx["tier"] == "thorough" else (64 << 10)
     jobs = [(f, a, max_size) for f in C15_FAMILIES for a in (False, True)]
     jobs += [(f, a, max_size, 13) for f in ("value-len", "name-len", "attr-count", "nest") for a in (False, True)]
+    # hash-flood: only applicable when the attribute maps' hasher is deterministic across instances (it is randomly keyed on the
+    # pinned tree); the colliding names are searched natively under the library's own hasher, the parse is measured under cachegrind
+    names = os.path.join(ctx["work"], "C15.flood.names")
+    rc, so, se, secs = ctx["run"]([_bin(ctx, "vcore"), "floodgen", "--count", str(max(2000, (max_size * 4) // 12)), "--out", names], timeout=1800)
+    flood_note = so.strip().splitlines()[-1] if so.strip() else f"floodgen failed rc={rc}"
+    if rc == 0 and os.path.exists(names) and not open(names).read().startswith("KEYED"):
+        jobs.append(("hash-flood", False, max_size * 4))
     out = _pool(jobs, lambda j: c15_series(ctx, j))
     r = _empty_result(ctx)
     allseries = {}
@@ -575,6 +588,7 @@ def c15_cachegrind(ctx):
             if d1 > 200_000:
                 worst = max(worst, d2 / d1)
     r["coverage"]["instruction_series"] = allseries
+    r["coverage"]["hash_flood_family"] = flood_note
     r["coverage"]["counters"]["max_instruction_ratio_x1000"] = int(worst * 1000)
     r["layers"] = [{"tool": "valgrind cachegrind (--cache-sim=no), instruction counts of a process that only parses",
                     "runs": sum(len(s) for s in allseries.values()), "worst_incremental_ratio": round(worst, 3), "reports": len(r["violations"])}]
